@@ -36,6 +36,11 @@ Check ==
              scale == FMul(FInt(n), IF R.pow = 1 THEN FMaxAbs(R.v) ELSE FSq(FMaxAbs(R.v)))
              tol == FMul(FMul(FInt(16 * n), Eps), FAdd(scale, FStr("1e-300")))
          IN Fails(Len(R.out) = n /\ \A i \in 1..n : Close(R.out[i], StepErr(R.v, i, R.pow), tol), "StepErr")
+    [] R.kind = "steperr_at" ->      \* a long series: the error at SOME splits (idx, 1-based) only
+         LET n == Len(R.v)
+             scale == FMul(FInt(n), IF R.pow = 1 THEN FMaxAbs(R.v) ELSE FSq(FMaxAbs(R.v)))
+             tol == FMul(FMul(FInt(16 * n), Eps), FAdd(scale, FStr("1e-300")))
+         IN Fails(R.len_ok /\ Len(R.vals) = Len(R.idx) /\ \A j \in 1..Len(R.idx) : Close(R.vals[j], StepErr(R.v, R.idx[j], R.pow), tol), "StepErr")
     [] R.kind = "levels" ->
          \* the split sample may be the first / last one: that side is empty and only the other level is stated
          LET n == Len(R.v)  sc == FMaxAbs(R.v)
